@@ -439,6 +439,9 @@ func (s *Store) SyncDB(ctx context.Context, path string, wait bool) (SyncDBResul
 	if !db.IsOpen() {
 		return SyncDBResult{}, fmt.Errorf("%w: %s", ErrDatabaseNotOpen, path)
 	}
+	if verifEnabled {
+		verifTrace("store.syncdb.checked", path)
+	}
 
 	_, beforeTXID, err := db.MaxLTX()
 	if err != nil {
